@@ -33,7 +33,7 @@ ASSUMPTIONS = ["differential oracle: the baseline configuration itself is judged
 FLOORS = {'quick': {'span-func': 1500, 'evaluator2': 400, 'unnormalized': 1500, 'num_procs': 40, 'cache-size': 12, 'ops-kwargs': 100},
           'thorough': {'span-func': 15000, 'unnormalized': 15000, 'num_procs': 300, 'cache-size': 60}}
 MANDATORY_TAGS = ['span:binary', 'evaluator2', 'range:per-direction', 'range:[2.0, 5.0]', 'range:[-3.0, 7.5]', 'procs:2', 'procs:4', 'procs:8', 'voxelize-mp',
-                  'tessellate-mp', 'cache:1', 'cache:16', 'cache:1024', 'curve', 'surface', 'volume']
+                  'tessellate-mp', 'tessellate-mp:edit-and-retessellate', 'range-scale:short', 'range-scale:long', 'cache:1', 'cache:16', 'cache:1024', 'curve', 'surface', 'volume']
 TECHNIQUE = ("runtime monitoring: cross-configuration differential oracle (same seeded query under each configuration, digests "
              "compared), event-log schedule checker for the multiprocessing pools, separate-interpreter runs for the environment-"
              "configured cache size")
@@ -219,6 +219,14 @@ def check_config(case, ctx):
         v3 = G.build(sd3)
         V = queries(v3, sd, prms, lohis, {}, qseed)
         compare(V, 'normalize_kv-off', 'unnormalized', tol=1e-8)
+    # ---- both options at once, on very short and very long knot ranges (power-of-two lengths: the affine map is exact) ---------------------
+    lohi = rng.choice([(0.0, 2.0 ** -13), (0.0, 1024.0), (-2.0 ** -13, 2.0 ** -13), (1.0, 1.0 + 2.0 ** -10)])
+    ctx.tag('range-scale:%s' % ('short' if lohi[1] - lohi[0] < 1e-2 else 'long'), 'span:binary+unnormalized')
+    lohis = [lohi] * pdim
+    sd4 = dict(sd, span='binary', normalize_kv=False, kvs=[[amap(k, lohi) for k in kv] for kv in sd['kvs']])
+    v4 = G.build(sd4)
+    V = queries(v4, sd, prms, lohis, {'find_span_func': helpers.find_span_binsearch}, qseed)
+    compare(V, 'normalize_kv-off+span-binary', 'unnormalized', tol=1e-8)
 
 
 # -- (b) number of worker processes ---------------------------------------------------------------------------------------------------
@@ -279,15 +287,27 @@ def check_procs(case, ctx):
             sds = [G.rand_shape(rng, 2, dim=3, clamped_only=True, maxextra=2, maxdeg=3, pcls='uniform') for _ in range(rng.randint(3, 6))]
             n = rng.randint(4, 8)
 
+            edit = rng.random() < 0.5      # the history continues after the first tessellation: the caller edits one of its surfaces
+            if edit:
+                ctx.tag('tessellate-mp:edit-and-retessellate')
+            shift = [rng.uniform(1, 3) for _ in range(3)]
+
             def run(k):
-                ms = multi.SurfaceContainer(*[G.build(sd) for sd in sds])
+                from geomdl import operations
+                mine = [G.build(sd) for sd in sds]
+                ms = multi.SurfaceContainer(*mine)
                 ms.sample_size = n
-                if k == 1:
-                    ms.tessellate()
-                else:
-                    ms.tessellate(num_procs=k)
-                return [[(v.id, list(v.uv), list(v.data)) for v in ms.vertices], [list(f.data) for f in ms.faces],
-                        [[list(p) for p in e.evalpts] for e in ms]]
+                kw = {} if k == 1 else {'num_procs': k}
+                ms.tessellate(**kw)
+                out = [[(v.id, list(v.uv), list(v.data)) for v in ms.vertices], [list(f.data) for f in ms.faces],
+                       [[list(p) for p in e.evalpts] for e in ms]]
+                if edit:
+                    # the surfaces the caller put into the container are still the container's surfaces
+                    operations.translate(mine[0], shift, inplace=True)
+                    ms.tessellate(force=True, **kw)
+                    out.append([(v.id, list(v.uv), list(v.data)) for v in ms.vertices])
+                    out.append([len(e.vertices) for e in mine])
+                return out
         else:
             ctx.tag('voxelize-mp')
             pd = rng.choice([2, 3])
